@@ -529,6 +529,20 @@ def alertPeek {σ : Type} [Dev σ] (cfg : RSCfg) (tls13 : Bool) (fuel : Nat) (d 
     Out σ PeekRes :=
   (nextMsgDev cfg tls13 fuel d s).bind fun gd s' => ⟨[], peekResult gd.1, s'⟩
 
+/-! ## the tail of readAsync: what a completed read returns and what stays buffered -/
+
+/-- `if max == None: max = len(self._readBuffer)`; `returnBytes = self._readBuffer[:max]`;
+    `self._readBuffer = self._readBuffer[max:]`  →  (returned, kept) -/
+def readAsyncReturn (max : Option Nat) (readBuffer : Bytes) : Bytes × Bytes :=
+  let m := match max with | none => readBuffer.length | some m => m
+  (readBuffer.take m, readBuffer.drop m)
+
+/-- one implicit read of AsyncStateMachine.inReadEvent (`readAsync(n)`, min = 1) on an empty
+    plaintext buffer once a record with plaintext `data` has been read: bytes handed to
+    outReadEvent, bytes left in `_readBuffer` (for which no further read event will come once
+    the transport is drained) -/
+def asmReadEvent (n : Nat) (data : Bytes) : Bytes × Bytes := readAsyncReturn (some n) data
+
 /-! ## AsyncStateMachine -/
 
 /-- what `next(generator)` does when the state machine calls it -/
